@@ -51,6 +51,18 @@ var universe, bigIdx = func() ([]string, []int) {
 	return u, idx
 }()
 
+// uni: the names of the current run (plain memory: a worker executes one run at
+// a time and sets it before the run's first task). Plan.Padded: the second name
+// is " b" and the fourth is "b" - two endpoints that differ in surrounding white
+// space only (what strings.Split("a, b", ",") yields).
+var uni = universe
+
+var universePadded = func() []string {
+	u := append([]string(nil), universe...)
+	u[1], u[3] = " b", "b"
+	return u
+}()
+
 // list lengths around which implementations tend to switch strategy
 var bigSizes = []int{7, 8, 9, 12, 13, 15, 16, 17, 24, 31, 32, 33, 40}
 
@@ -103,6 +115,7 @@ type Plan struct {
 	// WallSteps: clock readings carry a monotonic part and the wall clock is stepped
 	// (NTP corrections, VM resume) by some of the advance operations
 	WallSteps bool `json:"wall_steps,omitempty"`
+	Padded    bool `json:"padded,omitempty"` // see uni
 	Scribble  int  `json:"scribble,omitempty"`
 	Ops       []Op `json:"ops"`
 }
@@ -171,6 +184,7 @@ func Generate(r *rand.Rand, profile string, concurrent bool) *Plan {
 	}
 	p.Tick = r.IntN(3) == 0
 	p.WallSteps = !concurrent && r.IntN(4) == 0
+	p.Padded = r.IntN(5) == 0
 	if !concurrent && r.IntN(3) == 0 {
 		p.Alias = true
 		p.Scribble = r.IntN(3) // 0 never
@@ -601,7 +615,7 @@ func withDup(list []string, dup int) []string {
 func names(is []int) []string {
 	out := make([]string, len(is))
 	for i, x := range is {
-		out[i] = universe[x%len(universe)]
+		out[i] = uni[x%len(uni)]
 	}
 	return out
 }
@@ -910,6 +924,10 @@ func (s *sim) run(src *simkit.Source, logOn bool) {
 	k.Install()
 	defer k.Uninstall()
 	p := s.plan
+	uni = universe
+	if p.Padded {
+		uni = universePadded
+	}
 	src.Segment(0)
 	s.opIdx = -1
 	list := names(p.Init)
@@ -973,7 +991,7 @@ func (s *sim) exec(o Op) {
 	mo := s.mo
 	switch o.K {
 	case OpAvail:
-		e := universe[o.E%len(universe)]
+		e := uni[o.E%len(uni)]
 		s.call("SetEndpointAvailability", func() { s.me.SetEndpointAvailability(e, o.Up) })
 		if s.stop {
 			return
@@ -1339,7 +1357,7 @@ func (s *sim) runConcurrent(src *simkit.Source) {
 		o := o
 		switch o.K {
 		case OpAvail:
-			e := universe[o.E%len(universe)]
+			e := uni[o.E%len(uni)]
 			s.hint()
 			h := s.linOp(&histOp{Kind: OpAvail, E: e, Up: o.Up})
 			s.k.Spawn("SetEndpointAvailability", 0, nil, func() {
